@@ -26,7 +26,7 @@ for pid in ALL:
                 "design_ref": "DESIGN.md section 3, %s" % pid,
             },
             "level_note": "Trusted: CPython's ast module, the coaplint engine, the RFC reference tables transcribed into the rule module. Assumes no monkey-patching or application subclasses of the anchored classes, single-threaded asyncio (plain defs are atomic), third-party/stdlib callees behave as tabulated. Thorough tier additionally runs the sensitivity self-test (%d seeded faults must each be reported)." % len(R.seeds),
-            "technique": "static analysis: " + R.rule_text,
+            "technique": "static analysis (custom AST/CFG analyser, path-sensitive abstract interpretation over finite/symbolic domains, no execution of repository code, no solver): " + R.rule_text,
         })
     else:
         na.append({"property_id": pid, "reason": "check not yet registered (rule module under construction or awaiting a fix: commit in /repo)"})
@@ -34,7 +34,7 @@ m = {
     "version": 1,
     "setup_cmd": "/venv/bin/python -m compileall -q /verif/coaplint >/dev/null 2>&1 || true",
     "hooks": {"guard": "AIOCOAP_VERIF", "enable": "none needed: the checks read /repo/aiocoap sources as syntax trees and never import or run them", "baseline_off_cmd": "cd /repo && /venv/bin/python -m pytest -ra -q -p no:cacheprovider --timeout=900 --continue-on-collection-errors", "source_commits": [], "add_only": True},
-    "engines": [{"name": "coaplint", "path": "/verif/coaplint", "serves_properties": [c["property_id"] for c in checks], "kind_free_text": "repository-specific static analyser (ast): program model, call resolution, CFG/dominators, exception-escape analysis, polynomial/bit-field/piecewise normal forms, finite-domain abstract evaluation, field ownership"}],
+    "engines": [{"name": "coaplint", "path": "/verif/coaplint", "serves_properties": [c["property_id"] for c in checks], "kind_free_text": "repository-specific static analyser over Python syntax trees (nothing of the repository is imported or run): program model with canonical form (helper expansion against a table of confirmed function names, copy propagation, statement normalisations), call resolution, CFG/dominators, path model over normalised atomic conditions, exception-escape analysis with call-shape specialisation, polynomial/bit-field/piecewise normal forms, finite-domain and path-sensitive abstract interpretation inside the rule modules (rules/_kit_cNN.py), field ownership; no solver"}],
     "checks": checks,
     "notes": "Static analysis only. Exit 0 = all obligations discharged (KNOWN-FINDING lines for listed findings); exit 1 + VIOLATION line = an obligation refuted at a named construct; exit 2 + ANALYSIS-ERROR = the analysis could not be carried out (anchor vanished, shape outside the rule's vocabulary, instance count under its floor).",
     "not_applicable": na,
